@@ -261,6 +261,7 @@ factory!(T1W3, Toy<U1, U3>, "toy", ige = yes, ctr32 = no, ctr64 = no, ctr128 = n
 factory!(T2W1, Toy<U2, U1>, "toy", ige = yes, ctr32 = no, ctr64 = no, ctr128 = no, belt = no);
 factory!(T2W2, Toy<U2, U2>, "toy", ige = yes, ctr32 = no, ctr64 = no, ctr128 = no, belt = no);
 factory!(T2W3, Toy<U2, U3>, "toy", ige = yes, ctr32 = no, ctr64 = no, ctr128 = no, belt = no);
+factory!(T3W1, Toy<U3, U1>, "toy", ige = yes, ctr32 = no, ctr64 = no, ctr128 = no, belt = no);
 factory!(T3W2, Toy<U3, U2>, "toy", ige = yes, ctr32 = no, ctr64 = no, ctr128 = no, belt = no);
 factory!(T4W1, Toy<U4, U1>, "toy", ige = yes, ctr32 = yes, ctr64 = no, ctr128 = no, belt = no);
 factory!(T4W3, Toy<U4, U3>, "toy", ige = yes, ctr32 = yes, ctr64 = no, ctr128 = no, belt = no);
@@ -296,6 +297,7 @@ pub fn all_factories() -> Vec<Box<dyn Factory>> {
         Box::new(T2W1),
         Box::new(T2W2),
         Box::new(T2W3),
+        Box::new(T3W1),
         Box::new(T3W2),
         Box::new(T4W1),
         Box::new(T4W3),
